@@ -86,14 +86,22 @@ Definition splice (o : field_options) (target_text v : string) : string :=
    without one a scalar target gets the Value text of the source node (the empty text for a
    mapping or sequence source) and keeps its own tag and style, any other target is overwritten
    by a copy of the source node. *)
-Definition set_field_value (opts : option field_options) (value : node) (target : node) : res node :=
+(* Since the repair of the kept tag ([gen_replacement_retags_undecodable]): after the text is copied the target
+   is probed with Node.Decode; a text that cannot be decoded under the tag the target kept (`x` over a
+   null or an int) makes the node a string.  [decodes t text] is go-yaml's verdict (an oracle, like [enc]). *)
+Definition retag (decodes : tag -> string -> bool) (t : tag) (text : string) : tag :=
+  if gen_replacement_retags_undecodable && negb (decodes t text) then TStr else t.
+
+Definition set_field_value (decodes : tag -> string -> bool)
+           (opts : option field_options) (value : node) (target : node) : res node :=
   let delim := match opts with
                | Some o => if String.eqb (fo_delimiter o) "" then None else Some o
                | None => None
                end in
   match target, delim with
-  | Scalar t s tv, Some o => Ok (Scalar t s (splice o tv (get_value value)))
-  | Scalar t s _, None => Ok (Scalar t s (node_value value))
+  | Scalar t s tv, Some o =>
+      let x := splice o tv (get_value value) in Ok (Scalar (retag decodes t x) s x)
+  | Scalar t s _, None => Ok (Scalar (retag decodes t (node_value value)) s (node_value value))
   | _, Some _ => Err
   | _, None => Ok value
   end.
@@ -185,6 +193,7 @@ Section Repl.
   Variable parse : string -> option re.
   Variable enc : node -> string.
   Variable nonstr : string -> bool.
+  Variable decodes : tag -> string -> bool.   (* Node.Decode succeeds on a scalar with this tag and text *)
   Variable lsel : string -> list (string * string) -> option bool.
   Variable fuel : nat.
 
@@ -276,7 +285,7 @@ Section Repl.
     match hits with
     | [] => Ok (target, (value, live))
     | HAt a :: t =>
-        do target' <- update_at (set_field_value opts value) a target;
+        do target' <- update_at (set_field_value decodes opts value) a target;
         match live with
         | None => write_hits opts None value t target'
         | Some sa =>
@@ -284,7 +293,7 @@ Section Repl.
             write_hits opts (if still then Some sa else None) v' t target'
         end
     | HDetached x :: t =>
-        do _ <- set_field_value opts value x;     (* may fail; never visible *)
+        do _ <- set_field_value decodes opts value x;     (* may fail; never visible *)
         write_hits opts live value t target
     end.
 
